@@ -109,6 +109,7 @@ pub fn run(ctx: &Ctx) -> Report {
         (p5_full(), false),
         (p1("P1", ops, ctx.pick(vec![vec![], vec![1], vec![0x80]], a6()), vec![vec![2u8], vec![11]], 2), false),
         (p2(classic_ops(), vec![vec![1], vec![0x80]]), false),
+        (p_vectors(ctx.pick(2, 8)), false),
     ];
     let bases: Vec<ClvmFlags> = if ctx.quick() {
         vec![ClvmFlags::empty(), ClvmFlags::NEW_COST_MODEL, MEMPOOL_MODE | ClvmFlags::LIMITS]
